@@ -1,4 +1,5 @@
 """C06 - analytically stigmatic systems are imaged perfectly."""
+import copy
 import math
 
 import numpy as np
@@ -33,19 +34,23 @@ class C06(Check):
     rule = ('cases: generated parameters of six closed-form families - paraboloid mirror (object at infinity, R of either '
             'sign, f/0.6 .. f/10), ellipsoid and hyperboloid mirrors between their geometric foci, plano-hyperbolic singlet '
             '(k=-n^2, n in [1.3,4]), spherical surface imaging its centre of curvature, aplanatic points of a sphere; EPD up '
-            'to 95% of the geometric limit; hexapolar(6)+rim pupil points. Oracle: image point and equal optical path known '
+            'to 95% of the geometric limit; hexapolar(6)+rim pupil points; the lens built directly or built detuned and '
+            'brought to the closed form with set_radius/set_conic/set_index/set_thickness; PSF grids even and odd. Oracle: image point and equal optical path known '
             'in closed form; wavefront error and Strehl of the real-image families. Non-trivial: marginal ray incidence '
             '> 10 deg (a fast system). Distinct = distinct parameter hashes.')
     assumptions = ['virtual-image configurations use the back-projected rays and skip the wavefront/PSF clauses',
                    'tolerances: image point 1e-9 L, optical path 1e-9 L, wavefront 1e-6 waves, Strehl 1e-6']
 
     def budget(self, tier):
-        return (40, 8) if tier == 'quick' else (800, 16)
+        return (120, 8) if tier == 'quick' else (800, 16)
 
     def strategy(self, tier):
         return st.fixed_dictionaries(dict(family=st.sampled_from(FAMILIES), R=f(5.0, 500.0), sign=st.sampled_from([1, -1]),
                                           fill=f(0.05, 0.95), n=f(1.3, 4.0), a=f(0.1, 0.9), b=f(1.1, 6.0),
-                                          wl=f(0.45, 0.7), psf=st.booleans()))
+                                          wl=f(0.45, 0.7), psf=st.booleans(),
+                                          grid=st.sampled_from([(64, 256), (64, 256), (48, 129), (32, 127), (64, 255), (50, 200),
+                                                                (33, 128)]),
+                                          via=st.sampled_from(['build', 'build', 'setters'])))
 
     # ------------------------------------------------------------------
     def check(self, case, out):
@@ -56,7 +61,7 @@ class C06(Check):
     def run(self, out, case, sp, P, n_img, real, Lsc, first_mirror=False):
         """Trace the pupil bundle on axis and evaluate the clauses.  P: image point (global), n_img: index of the
         medium in which the rays finally travel."""
-        o = build(sp)
+        o = self.construct(case, sp, out)
         w = sp['wls'][0]
         px, py = pupil_points()
         o.trace_generic(np.zeros_like(px), np.zeros_like(px), px.copy(), py.copy(), w)
@@ -102,9 +107,40 @@ class C06(Check):
             out.close('wavefront_error_zero', W, np.zeros_like(W), atol=1e-6, family=case['family'])
             if case['psf']:
                 from optiland.psf import FFTPSF
-                psf = FFTPSF(o, (0.0, 0.0), w, num_rays=64, grid_size=256)
+                nr, gs = case.get('grid', (64, 256))
+                psf = FFTPSF(o, (0.0, 0.0), w, num_rays=nr, grid_size=gs)
+                out.cls('psf_grid_%s' % ('odd' if gs % 2 else 'even'))
                 out.close('strehl_is_one', float(psf.strehl_ratio()), 1.0, atol=1e-6, family=case['family'])
                 out.cls('psf_checked')
+
+    def construct(self, case, sp, out):
+        """the lens of the closed form, built directly or built detuned and brought to the closed form with the
+        public setters (set_radius / set_conic / set_index / set_thickness)"""
+        if case.get('via', 'build') != 'setters':
+            return build(sp)
+        out.cls('reached_through_setters')
+        d = copy.deepcopy(sp)
+        for q in d['surfs']:
+            if q['R'] != 'inf':
+                q['R'] = q['R'] * 1.13
+                q['k'] = q['k'] + 0.21
+            q['t'] = q['t'] * 0.9
+            if q['mat'].get('kind') == 'ideal':
+                q['mat'] = glass(q['mat']['n'] * 1.07)
+        if d['obj']['t'] != 'inf':
+            d['obj']['t'] = d['obj']['t'] * 1.2
+        o = build(d)
+        for k, q in enumerate(sp['surfs'], start=1):
+            if q['R'] != 'inf':
+                o.set_radius(q['R'], k)
+                o.set_conic(q['k'], k)
+            if q['mat'].get('kind') == 'ideal':
+                o.set_index(q['mat']['n'], k)
+        if sp['obj']['t'] != 'inf':
+            o.set_thickness(sp['obj']['t'], 0)
+        for k, q in enumerate(sp['surfs'], start=1):
+            o.set_thickness(q['t'], k)
+        return o
 
     # -- families ------------------------------------------------------
     def do_paraboloid(self, case, out):
